@@ -173,6 +173,60 @@ func writeFormat(al align.Alignment, format string, r *Rand) string {
 	panic("format " + format)
 }
 
+// c03NexusGrammar assembles a DATA block from the grammar instead of the writer: FORMAT options in any
+// combination, gap / missing / match symbols of one byte or of several (a dash pasted from a word processor,
+// a Latin-1 byte), NCHAR counted in characters or in bytes. Not every such file is valid; what it declares is
+// known, and a parser that accepts it must return what it declares.
+func c03NexusGrammar(r *Rand) c03File {
+	syms := []string{"-", "?", ".", "~", "N", "\u2013", "\u00e9", "\xff", "--"}
+	ntax, n := r.Range(1, 4), r.Range(1, 12)
+	gap, missing, match := syms[r.Intn(len(syms))], syms[r.Intn(len(syms))], syms[r.Intn(len(syms))]
+	special := make([]string, n) // the same columns hold a symbol in every row (rows of equal byte length)
+	aligned := r.Chance(0.6)
+	for k := range special {
+		if r.Chance(0.3) {
+			special[k] = r.PickS(gap, gap, missing)
+		}
+	}
+	var rows []string
+	for i := 0; i < ntax; i++ {
+		var sb strings.Builder
+		for k := 0; k < n; k++ {
+			switch {
+			case aligned && special[k] != "":
+				sb.WriteString(special[k])
+			case !aligned && r.Chance(0.2):
+				sb.WriteString(r.PickS(gap, missing))
+			case i > 0 && r.Chance(0.15):
+				sb.WriteString(match)
+			default:
+				sb.WriteByte("ACGT"[r.Intn(4)])
+			}
+		}
+		rows = append(rows, sb.String())
+	}
+	nchar := n
+	if r.Chance(0.5) {
+		nchar = len(rows[0])
+	}
+	var sb strings.Builder
+	fmt.Fprintf(&sb, "#NEXUS\nbegin %s;\ndimensions ntax=%d nchar=%d;\nformat datatype=%s", r.PickS("data", "characters"), ntax, nchar, r.PickS("dna", "nucleotide", "rna"))
+	opts := []string{"missing=" + missing, "gap=" + gap, "matchchar=" + match, "interleave=" + r.PickS("yes", "no")}
+	for _, k := range r.Perm(len(opts)) {
+		if r.Chance(0.6) {
+			sb.WriteString(" " + opts[k])
+		}
+	}
+	sb.WriteString(";\nmatrix\n")
+	for i, row := range rows {
+		fmt.Fprintf(&sb, "t%d %s\n", i, row)
+	}
+	sb.WriteString(";\nend;\n")
+	f := c03File{Format: "nexus", Name: "nexus-grammar", Content: sb.String(), Decl: []int{ntax, nchar}}
+	f.HeaderEnd = nexusHeaderEnd(f.Content)
+	return f
+}
+
 // c03ValidFile draws a valid file of the given format ("auto": any format the
 // auto-detection knows).
 func c03ValidFile(r *Rand, format string) c03File {
@@ -207,6 +261,9 @@ func c03ValidFile(r *Rand, format string) c03File {
 			sb.WriteString("\n")
 		}
 		return c03File{Format: "partition", Name: "partition-grammar", Content: sb.String(), PartLen: l}
+	}
+	if format == "nexus" && r.Chance(0.2) {
+		return c03NexusGrammar(r)
 	}
 	if format == "partition" || r.Chance(0.45) {
 		var cands []c03File
